@@ -7,13 +7,12 @@
    gen_<f> = fres_opt (gen_<f>_r ..) : option R.
    Scope: Gen/Regex.v restates the crate on ASCII haystacks; the statements themselves hold for all texts.
 
-   FINDINGS about the MODEL (generated code and real code agree, the hand model is wrong; both confirmed by running
-   /repo through a tiny cargo project):
-     fmapgen_key_match4_refuted     key_match4("/a/b", "/([^/]+)/{id}") PANICS in the source (token count); the model
-                                    answers Some true.  The equality holds exactly when the counts agree.
-     fmapgen_regex_match_words_refuted   regex_match("GETx", "^GET|POST$") = true in the source; the model
-                                    (regex_match_words) answers Some false: it reads anchors as applying to every
-                                    alternative. *)
+   Two errors of the hand MODEL found by this part (confirmed by running /repo through a tiny cargo project) have
+   been repaired in Model/PathMatch.v, so that the statements below are unconditional:
+     key_match4          the model now answers None where the source panics with "number of tokens is not equal to
+                         number of values" (key_match4("/a/b", "/([^/]+)/{id}"): the pattern brings its own group);
+     regex_match_words   an anchored BARE alternation (`^GET|POST$`, read by the crate as `(^GET)|(POST$)`:
+                         regex_match("GETx", "^GET|POST$") = true) is now outside the model's class. *)
 From CV Require Import Model.Base Model.PathMatch Model.SpecC15.
 From CV Require Import Gen.Regex Gen.RegexSyntax Gen.FmapRt Gen.FmapGen.
 From CV Require Import Proofs.FmapP PinChecks.PcFmapGen.
@@ -51,26 +50,21 @@ Proof. exact fm_regex_match_reject. Qed.
 Print Assumptions fmapgen_regex_match_reject.
 Example fmapgen_regex_match_reject_ex : rx_compile (T "^/foo/{id}$") = RxBad RxReject.
 Proof. vm_compute. reflexivity. Qed.
-(* against regex_match_words: the full statement (fm_regex_match_words_full) is false of the model *)
-Theorem fmapgen_regex_match_words_refuted :
-  exists k pat b, regex_match_words k pat = Some b /\ gen_regex_match_r k pat = FRet (negb b).
-Proof. exact fm_regex_match_words_refuted. Qed.
-Print Assumptions fmapgen_regex_match_words_refuted.
-(* .. what holds: one word anchored on both sides *)
-Theorem fmapgen_regex_match_word_partial : forall k w, safe_word w = true ->
-  gen_regex_match_r k (anchor w) = FRet (teqb w k) /\ regex_match_words k (anchor w) = Some (teqb w k).
-Proof. exact fm_regex_match_word_both. Qed.
-Print Assumptions fmapgen_regex_match_word_partial.
-Example fmapgen_regex_match_word_ex : safe_word (T "GET") = true /\ gen_regex_match (T "GET") (T "^GET$") = Some true.
-Proof. split; vm_compute; reflexivity. Qed.
-
-(* .. and one unanchored word: a search for the word (missing: alternatives, one-sided anchors) *)
-Theorem fmapgen_regex_match_plain_word_partial : forall k w, safe_word w = true ->
-  gen_regex_match_r k w = FRet (is_infix w k) /\ regex_match_words k w = Some (is_infix w k).
-Proof. exact fm_regex_match_plain_word_partial. Qed.
-Print Assumptions fmapgen_regex_match_plain_word_partial.
-Example fmapgen_regex_match_plain_word_ex : safe_word (T "GET") = true /\ gen_regex_match (T "xGETx") (T "GET") = Some true.
-Proof. split; vm_compute; reflexivity. Qed.
+(* against the model of regex_match (regex_match_words: alternatives of literal words, optionally anchored) *)
+Theorem fmapgen_regex_match_words : forall k pat b,
+  regex_match_words k pat = Some b -> gen_regex_match k pat = Some b.
+Proof. exact fm_regex_match_words_opt. Qed.
+Print Assumptions fmapgen_regex_match_words.
+Example fmapgen_regex_match_words_ex :
+  regex_match_words (T "POST") (T "^(GET|POST)$") = Some true /\ regex_match_words (T "xPOSTy") (T "(GET)|(POST)") = Some true /\
+  regex_match_words (T "GETx") (T "^GET") = Some true /\ regex_match_words (T "xPOST") (T "POST$") = Some true /\
+  regex_match_words (T "GET") (T "^((GET)|(POST))$") = Some true /\ regex_match_words (T "PUT") (T "GET|POST") = Some false.
+Proof. repeat split; vm_compute; reflexivity. Qed.
+(* an anchored bare alternation is outside the model's class; the source reads it as (^GET)|(POST$) *)
+Example fmapgen_regex_match_words_bare_ex :
+  regex_match_words (T "GETx") (T "^GET|POST$") = None /\ gen_regex_match (T "GETx") (T "^GET|POST$") = Some true /\
+  regex_match_words (T "xPOST") (T "^GET|POST") = None /\ gen_regex_match (T "xPOST") (T "^GET|POST") = Some true.
+Proof. repeat split; vm_compute; reflexivity. Qed.
 
 (* ---- key_match2 / key_match3 / key_match5: the rewriting for ALL patterns, the model wherever it answers *)
 Theorem fmapgen_key_match2_pipeline : forall k1 k2, gen_key_match2_r k1 k2 = gen_regex_match_r k1 (rewrite_km2 k2).
@@ -113,19 +107,23 @@ Example fmapgen_key_get3_ex :
   key_get3 (T "/api/group1_group_name/project1_admin/info") (T "/api/{g}_{gn}/{proj}_admin/info") (T "gn") = Some (T "group_name").
 Proof. vm_compute. reflexivity. Qed.
 
-(* ---- key_match4: equal to the model when the token count of the source agrees; the full statement
-        (fm_key_match4_full) is false of the model *)
-Theorem fmapgen_key_match4 : forall k1 k2 b, km4_counts_agree k2 ->
-  key_match4 k1 k2 = Some b -> gen_key_match4 k1 k2 = Some b.
+(* ---- key_match4: the model wherever it answers; on the whole class the option view IS the model (None = the
+        panic of the source on its token count) *)
+Theorem fmapgen_key_match4 : forall k1 k2 b, key_match4 k1 k2 = Some b -> gen_key_match4 k1 k2 = Some b.
 Proof. exact fm_key_match4_opt. Qed.
 Print Assumptions fmapgen_key_match4.
 Example fmapgen_key_match4_ex :
   key_match4 (T "/parent/123/child/456") (T "/parent/{id}/child/{id}") = Some false /\
   gen_key_match4 (T "/parent/123/child/456") (T "/parent/{id}/child/{id}") = Some false.
 Proof. split; vm_compute; reflexivity. Qed.
-Theorem fmapgen_key_match4_refuted : exists k1 k2 b, key_match4 k1 k2 = Some b /\ gen_key_match4_r k1 k2 = FPanic.
-Proof. exact fm_key_match4_refuted. Qed.
-Print Assumptions fmapgen_key_match4_refuted.
+Theorem fmapgen_key_match4_model : forall k1 k2 atoms, parse_regex (fst (rewrite_km4 k2)) = Some atoms ->
+  gen_key_match4 k1 k2 = key_match4 k1 k2.
+Proof. exact fm_key_match4_model. Qed.
+Print Assumptions fmapgen_key_match4_model.
+Example fmapgen_key_match4_model_ex :
+  parse_regex (fst (rewrite_km4 (T "/([^/]+)/{id}"))) <> None /\ key_match4 (T "/a/b") (T "/([^/]+)/{id}") = None /\
+  gen_key_match4_r (T "/a/b") (T "/([^/]+)/{id}") = FPanic /\ key_match4 (T "/a") (T "/([^/]+)/{id}") = Some false.
+Proof. repeat split; try discriminate; vm_compute; reflexivity. Qed.
 Theorem fmapgen_key_match4_panics : forall k1 k2 atoms cs,
   parse_regex (fst (rewrite_km4 k2)) = Some atoms -> amatch atoms k1 = Some cs ->
   length (snd (rewrite_km4 k2)) <> ncaps atoms -> gen_key_match4_r k1 k2 = FPanic.
